@@ -129,11 +129,13 @@ fn decode_event(bytes: &[u8], want_text: bool, want_ops: bool, want_serde: bool)
                 let r = catch_unwind(AssertUnwindSafe(|| {
                     let s = serde_json::to_string(&frame).map_err(|e| e.to_string())?;
                     let f2: Frame = serde_json::from_str(&s).map_err(|e| e.to_string())?;
-                    Ok::<_, String>(project::frame(&f2))
+                    Ok::<_, String>((project::frame(&f2), format!("{f2:?}") == format!("{frame:?}")))
                 }));
                 match r {
-                    Ok(Ok(m)) => {
+                    Ok(Ok((m, same))) => {
                         ev.insert("serde".into(), Value::Object(m));
+                        // the whole value, compared through its Debug form (variants the projection does not tell apart)
+                        ev.insert("serde_eq".into(), json!(i64::from(same)));
                     }
                     _ => {
                         ev.insert("serde".into(), json!({"ok": 3}));
